@@ -154,7 +154,7 @@ def fallback_search(prop, reason, repo):
     return None
 
 
-def standin_search(prop, repo):
+def standin_search(prop, repo, tier="quick", seed=0):
     """Bounded stand-ins registered for parts of a property no contract decides (registry key `bounded`): run each family on the
     real code on EVERY run.  Returns (results, found) - results describe what was explored, found is (replay path, obligation) or None."""
     from . import registry
@@ -170,7 +170,8 @@ def standin_search(prop, repo):
     for b in fams:
         fam = b["family"]
         try:
-            r = subprocess.run([exe, "find", fam, "standin"] + _skip_args(prop), capture_output=True, text=True, timeout=900)
+            mode = "standin" if tier != "thorough" else "standin thorough:%d" % (seed + 1)
+            r = subprocess.run([exe, "find", fam, mode] + _skip_args(prop), capture_output=True, text=True, timeout=1500)
         except subprocess.TimeoutExpired:
             results.append(dict(b, status="timeout"))
             continue
@@ -192,7 +193,7 @@ def standin_search(prop, repo):
             if found is None:
                 found = (path, oid)
         elif r.returncode == 0 and lines and lines[-1].startswith("NOTFOUND"):
-            results.append(dict(b, status="no failing input", cases=int(lines[-1].split()[1])))
+            results.append(dict(b, status="no failing input", cases=int(lines[-1].split()[1]), mode=mode + (" (thorough tier: the families c03 c06 c10 c11 c12 c19 add 200-600 seeded random token-alphabet texts, a third of them with one byte deleted/replaced/truncated)" if tier == "thorough" else "")))
         else:
             results.append(dict(b, status="stand-in did not run: rc=%s %s" % (r.returncode, (r.stderr or r.stdout)[-200:])))
     return results, found
